@@ -1,6 +1,7 @@
-(* OptMono.v — first step towards "the translation validator is monotone in its fuel" (the literal collectors are):
-   any larger fuel. (Needed to carry "the current body of every rule is a validated image of its original body"
-   through the in-place passes, where different rules are validated at different depths.) *)
+(* OptMono.v — first step towards "the translation validator is monotone in its fuel": its two literal collectors
+   (`lits` for skip-until, `flat_terms` for squashed choices) are. (Monotonicity of `ochk` itself is what the proofs of
+   the in-place passes need, to carry "the current body of every rule is a validated image of its original body"
+   through the table while different rules are validated at different depths; not done.) *)
 From Coq Require Import List NArith ZArith Bool Arith Lia.
 Import ListNotations.
 From PP Require Import Base Syntax Spec SpecSyn SpecEquiv CharClass Opt OptProof OptPass OptPassProof OptPassInline.
